@@ -71,16 +71,15 @@ class InEpSpec(Spec):
     def __init__(self, cfg, tier):
         super().__init__(cfg, tier)
         self.mps = cfg["mps"]
-        self.transfers = [tuple(t) for t in cfg["script"]]
-        for n, _ in self.transfers:
-            assert n > 0
-        self.words = script_words(self.transfers)
-        self.pk = reference_packets(self.transfers, self.mps)
+        self.scripts = script_set(cfg["scripts"], self.mps)
+        self.W = [script_words(t) for t in self.scripts]
+        self.P = [reference_packets(t, self.mps) for t in self.scripts]
+        self.words = self.pk = None          # selected per transition (see apply)
         self.fields = cfg.get("checks", "flow") == "fields"
         self.other = bool(cfg.get("other"))
         self.backpressure = bool(cfg.get("backpressure", True))
-        self.time_budget = cfg.get("budget", 35 if tier == "quick" else 800)
-        self.max_states = cfg.get("max_states", 400_000 if tier == "quick" else 3_000_000)
+        self.time_budget = 200 if tier == "quick" else 850      # the quick spaces take a few seconds; generous against machine load
+        self.max_states = 4_000_000
 
     # ------------------------------------------------------------------ DUT
     def build(self):
@@ -113,12 +112,15 @@ class InEpSpec(Spec):
         return Design(d, ins, obs, defaults=dict(address=0x2A))
 
     # ------------------------------------------------------------------ environment
-    # env = (sp, offering, acked, hst, rxn, must, blocked, since, txv, hqv, held)
+    # env = (sid, sp, offering, acked, hst, rxn, must, blocked, since, txv, hqv); sid = index of the stream script,
+    # chosen by the first action (which consumes no clock cycle)
     def env0(self):
-        return (0, 0, 0, IDLE, 0, 0, 0, HOLD, 0, 0, None)
+        return (-1, 0, 0, 0, IDLE, 0, 0, 0, HOLD, 0, 0)
 
     def actions(self, env):
-        sp, offering, acked, hst, rxn, must, blocked, since, txv, hqv, held = env
+        sid, sp, offering, acked, hst, rxn, must, blocked, since, txv, hqv = env
+        if sid < 0: return [("script", i) for i in range(len(self.scripts))]
+        self.words = self.W[sid]
         offers = (1,) if offering else ((0, 1) if sp < len(self.words) else (0,))
         if hst == IDLE:
             host = (None,) if blocked else (None, "IN")
@@ -162,7 +164,11 @@ class InEpSpec(Spec):
         return k < len(self.pk) and sp >= self.pk[k][1]
 
     def apply(self, cur, env, a):
-        sp, offering, acked, hst, rxn, must, blocked, since, txv, hqv, held = env
+        sid, sp, offering, acked, hst, rxn, must, blocked, since, txv, hqv = env
+        if a[0] == "script":
+            return (a[1],) + env[1:]
+        self.words, self.pk = self.W[sid], self.P[sid]
+        held = None
         offer, host, txr, hqr = a
         word = self.words[sp] if offer else None
         # ---- host event (the TP is on handshakes_in during this cycle)
@@ -179,8 +185,8 @@ class InEpSpec(Spec):
         elif host == "RETRY":
             hst, must = WAIT, 1
             self.cover["retry"] += 1
-        o = cur.step(**self.drive(word, host, env[2], txr, hqr))
-        ctx = dict(packet_index=acked, stream_words_accepted=sp)
+        o = cur.step(**self.drive(word, host, env[3], txr, hqr))
+        ctx = dict(script=self.scripts[sid], packet_index=acked, stream_words_accepted=sp)
         # ---- stream side
         if offer and o.s_ready:
             sp += 1; offering = 0; since = 0
@@ -272,7 +278,7 @@ class InEpSpec(Spec):
         if held is not None and (nxt.tx_valid, nxt.tx_data, nxt.tx_first, nxt.tx_last) != held:
             raise Violation("tx-word-dropped-under-backpressure", dict(ctx, presented=held, next_cycle=(nxt.tx_valid, nxt.tx_data, nxt.tx_first, nxt.tx_last)))
         held = None          # (checked by lookahead; not part of the state)
-        env2 = (sp, offering, acked, hst, rxn, must, blocked, since, txv, hqv, held)
+        env2 = (sid, sp, offering, acked, hst, rxn, must, blocked, since, txv, hqv)
         # ---- liveness probes
         if hst == WAIT:
             if not self.probe(cur, env2, lambda p: p.tx_valid or p.tx_zlp or p.hq_valid, LIVE):
@@ -293,10 +299,10 @@ class InEpSpec(Spec):
     def probe(self, cur, env, cond, n):
         """hold the producer's word (if any), no host events, everything ready: does cond(obs) become true within n cycles?"""
         f = cur.fork()
-        sp, offering = env[0], env[1]
+        sp, offering = env[1], env[2]
         for _ in range(n):
             w = self.words[sp] if offering else None
-            o = f.step(**self.drive(w, None, env[2], 1, 1))
+            o = f.step(**self.drive(w, None, env[3], 1, 1))
             if offering and o.s_ready: offering = 0; sp += 1
             if cond(o): return True
         return False
@@ -307,41 +313,58 @@ class InEpSpec(Spec):
         return f"packet {k} of {len(self.pk[k][0])} bytes"
 
     def label(self, a):
+        if a[0] == "script": return "script=" + str(self.scripts[a[1]])
         offer, host, txr, hqr = a
         return f"{'W' if offer else '-'}{'/' + host if host else ''}{'' if txr else '/tx-stall'}{'' if hqr else '/hq-stall'}"
 
     def goals(self):
-        g = ["in-request", "dp", "dp-complete"]
-        return g + list(self.cfg.get("goals", []))
+        return ["in-request", "dp", "dp-complete", "nrdy", "retry", "ack+in", "ack-final", "short-packet", "zlp", "tx-backpressure"]
 
 
 # ----------------------------------------------------------------------------------------------------- module API
+def script_set(name, mps):
+    """named families of stream scripts; a script = list of (transfer length in bytes, ends with `last`)"""
+    h = mps // 2
+    if name == "quick":
+        lens = [3, h + 1, mps, mps + 3, 2 * mps]
+        depth, tails = 2, [0, mps]
+    elif name == "thorough":
+        lens = [1, 4, h + 1, mps, mps + 1, mps + 4, 2 * mps, 2 * mps + 3]
+        depth, tails = 3, [0, 4, mps, 2 * mps]
+    elif name == "pairs":
+        lens = [2, mps, mps + 2]
+        depth, tails = 2, [0]
+    else:
+        raise KeyError(name)
+    seqs = [[]]
+    out = []
+    for _ in range(depth):
+        seqs = [q + [n] for q in seqs for n in lens]
+        out += seqs
+    scripts = []
+    for q in out:
+        for t in tails:
+            scripts.append([(n, True) for n in q] + ([(t, False)] if t else []))
+    for t in tails:
+        if t: scripts.append([(t, False)])
+    return scripts
+
+
 def configs(tier):
-    L, N = True, False
-    base = [
-        dict(mps=8, script=[[3, L]], name="8:short3"),
-        dict(mps=8, script=[[8, L]], name="8:full+zlp"),
-        dict(mps=8, script=[[11, L]], name="8:full+short"),
-        dict(mps=8, script=[[5, L], [8, L]], name="8:short,full+zlp"),
-        dict(mps=8, script=[[16, N]], name="8:continuous"),
-        dict(mps=8, script=[[8, N], [6, L]], name="8:full,short6"),
-        dict(mps=16, script=[[16, L]], name="16:full+zlp"),
-        dict(mps=16, script=[[21, L]], name="16:full+short5"),
-        dict(mps=16, script=[[7, L], [32, N]], name="16:short7,continuous"),
-    ]
-    cfgs = []
-    for b in base:
-        cfgs.append(dict(b, checks="flow"))
-    for b in (base[0], base[1], base[2], base[7]):
-        cfgs.append(dict(b, checks="fields", name=b["name"] + ":fields"))
-    cfgs.append(dict(base[2], checks="flow", other=1, name="8:full+short:other-endpoint-traffic"))
-    if tier == "thorough":
-        cfgs.append(dict(mps=8, script=[[11, L], [8, L], [2, L]], checks="flow", name="8:full+short,full+zlp,short2"))
-        cfgs.append(dict(mps=8, script=[[24, N], [3, L]], checks="flow", name="8:continuous24,short3"))
-        cfgs.append(dict(mps=16, script=[[32, L], [4, L]], checks="flow", name="16:2full+zlp,short4"))
-        cfgs.append(dict(mps=16, script=[[21, L]], checks="flow", other=1, name="16:full+short5:other-endpoint-traffic"))
-        cfgs.append(dict(mps=8, script=[[5, L], [8, L]], checks="fields", name="8:short,full+zlp:fields"))
-    return cfgs
+    if tier == "quick":
+        return [dict(mps=8, scripts="quick", checks="flow", name="mps8:flow"),
+                dict(mps=16, scripts="quick", checks="flow", name="mps16:flow"),
+                dict(mps=8, scripts="pairs", checks="fields", name="mps8:fields"),
+                dict(mps=16, scripts="pairs", checks="fields", name="mps16:fields"),
+                dict(mps=8, scripts="pairs", checks="flow", other=1, name="mps8:flow:other-endpoint-traffic")]
+    return [dict(mps=8, scripts="thorough", checks="flow", name="mps8:flow"),
+            dict(mps=16, scripts="thorough", checks="flow", name="mps16:flow"),
+            dict(mps=32, scripts="quick", checks="flow", name="mps32:flow"),
+            dict(mps=64, scripts="pairs", checks="flow", name="mps64:flow"),
+            dict(mps=8, scripts="quick", checks="fields", name="mps8:fields"),
+            dict(mps=16, scripts="quick", checks="fields", name="mps16:fields"),
+            dict(mps=8, scripts="quick", checks="flow", other=1, name="mps8:flow:other-endpoint-traffic"),
+            dict(mps=16, scripts="pairs", checks="flow", other=1, name="mps16:flow:other-endpoint-traffic")]
 
 
 def make(cfg, tier):
